@@ -921,7 +921,17 @@ class Engine:
         if isinstance(fn, FuncV):
             return self.call_function(st, fn.fi, list(args), kwargs)
         if isinstance(fn, LambdaV):
-            return self.call_lambda(st, fn, args)
+            outs = self.call_lambda(st, fn, args)
+            if self.mode.get("identifier_faults") and st.frames and \
+                    getattr(st.frames[-1], "qualname", "") == "AbstractTypeResolver.get_type":
+                # C19: a type identifier may fail transiently (RecursionError / MemoryError inside an ABC subclass hook -
+                # a RuntimeError-or-other Exception that says nothing about the value): one more outcome of the call
+                y = st.copy()
+                e, cond = self.mk_exc_sym(("RuntimeError",), label="transient identifier fault")
+                y.assume(cond)
+                y.event("transient-fault", "identifier")
+                outs = list(outs) + [(y, Raise(e))]
+            return outs
         if isinstance(fn, ClassV):
             return self.instantiate(st, fn.ci, args, kwargs)
         if isinstance(fn, BuiltinV):
